@@ -86,6 +86,28 @@ type parser struct {
 	// position of the first character of the token read last
 	tokLine int
 	tokCol  int
+
+	// depth is the number of lists, objects, list types and selection sets
+	// the parser is inside of.
+	depth int
+}
+
+// maxParseDepth is how deep values, types and selection sets can be nested
+// in a document. The readers call themselves for every level, without a
+// limit a long enough row of opening brackets overflows the stack.
+const maxParseDepth = 1000
+
+// descend is called on the way into a nested part of the document and
+// ascend on the way out.
+func (p *parser) descend() error {
+	if p.depth++; maxParseDepth < p.depth {
+		return parseError(p.line, p.col, "nested more than %d levels deep", maxParseDepth)
+	}
+	return nil
+}
+
+func (p *parser) ascend() {
+	p.depth--
 }
 
 // ParseValue parses a reader into a value where the input follows the SDL
@@ -245,7 +267,12 @@ func (p *parser) readType() (t Type, err error) {
 			return
 		case '[':
 			_, _ = p.readByte() // re-read [
-			if t, err = p.readType(); err != nil {
+			if err = p.descend(); err != nil {
+				return
+			}
+			t, err = p.readType()
+			p.ascend()
+			if err != nil {
 				return
 			}
 			if t == nil {
@@ -478,6 +505,10 @@ func (p *parser) readValue() (v interface{}, err error) {
 		}
 	case '[':
 		_, _ = p.readByte() // re-read [
+		if err = p.descend(); err != nil {
+			return
+		}
+		defer p.ascend()
 		list := []interface{}{}
 		for {
 			if b, err = p.skipSpace(); err != nil {
@@ -498,6 +529,10 @@ func (p *parser) readValue() (v interface{}, err error) {
 		}
 	case '{':
 		_, _ = p.readByte() // re-read {
+		if err = p.descend(); err != nil {
+			return
+		}
+		defer p.ascend()
 		obj := map[string]interface{}{}
 		for {
 			if b, err = p.skipSpace(); err != nil {
